@@ -12,6 +12,7 @@
 import HugrVerif.Validate
 import HugrVerif.Proofs.ValSpec
 import Mathlib.Logic.Relation
+import Mathlib.Tactic.ByContra
 
 namespace HugrVerif.Validate
 open HugrVerif Relation
@@ -22,7 +23,7 @@ namespace OpTag
 
 theorem isSupersetF_fix (s o : OpTag) :
     isSupersetF 6 s o = (s == o || (parents o).any (fun p => isSupersetF 6 s p)) := by
-  cases s <;> cases o <;> rfl
+  cases o <;> simp [isSupersetF, parents]
 
 theorem superset_of_isSupersetF : ∀ (k : Nat) (s o : OpTag), isSupersetF k s o = true → Superset s o
   | 0, s, o, h => by
@@ -97,7 +98,7 @@ theorem exists_cycle_of_no_source : ∀ (n : Nat) (R : List Nat) (E : Nat → Na
       · exact ⟨x, .single hxx⟩
       · let R' := (x :: R0).filter (fun z => z != x)
         have hmemR' : ∀ z, z ∈ R' ↔ z ∈ x :: R0 ∧ z ≠ x := by
-          intro z; simp [R']
+          intro z; simp only [R', List.mem_filter, bne_iff_ne, ne_eq]
         have hlen : R'.length ≤ n := by
           have : R'.length < (x :: R0).length :=
             List.length_filter_lt_length_iff_exists.2 ⟨x, List.mem_cons_self, by simp⟩
@@ -261,7 +262,7 @@ theorem Walk.avoided {es : List (Nat × Nat)} {a x y : Nat} {vs : List Nat} (h :
 theorem mem_reachStep (V : List Nat) (es : List (Nat × Nat)) (S : List Nat) (y : Nat) :
     y ∈ reachStep V es S ↔ y ∈ S ∨ (y ∈ V ∧ y ∉ S ∧ ∃ x ∈ S, (x, y) ∈ es) := by
   simp only [reachStep, List.mem_append, List.mem_filter, List.any_eq_true, List.contains_iff_mem,
-    beq_iff_eq, Prod.exists, Bool.and_eq_true, Bool.not_eq_true', decide_eq_false_iff_not]
+    beq_iff_eq, Prod.exists, Bool.and_eq_true, Bool.not_eq_true']
   constructor
   · rintro (h | ⟨hyV, hyS, a, b, ⟨hab, ha⟩, hb⟩)
     · exact Or.inl h
@@ -333,9 +334,13 @@ def todo (V S : List Nat) : Nat := (V.filter (fun v => !S.contains v)).length
 
 theorem todo_lt (V : List Nat) (es : List (Nat × Nat)) (hV : ∀ e ∈ es, e.2 ∈ V) (S : List Nat)
     (h : ¬ Closed es S) : todo V (reachStep V es S) < todo V S := by
-  unfold Closed at h
-  simp only [not_forall] at h
-  obtain ⟨x, hx, y, hxy, hy⟩ := h
+  have h' : ∃ x ∈ S, ∃ y, (x, y) ∈ es ∧ y ∉ S := by
+    by_contra hno
+    apply h
+    intro x hx y hxy
+    by_contra hy
+    exact hno ⟨x, hx, y, hxy, hy⟩
+  obtain ⟨x, hx, y, hxy, hy⟩ := h'
   apply filter_length_lt_of_imp
   · intro v hv
     simp only [Bool.not_eq_true', List.contains_eq_mem, decide_eq_false_iff_not] at hv ⊢
@@ -353,6 +358,7 @@ theorem closed_iter (V : List Nat) (es : List (Nat × Nat)) (hV : ∀ e ∈ es, 
     have h0 : V.filter (fun v => !S.contains v) = [] := List.eq_nil_of_length_eq_zero (by unfold todo at h; omega)
     rw [List.filter_eq_nil_iff] at h0
     have := h0 y hyV
+    show y ∈ S
     simpa using this
   | k + 1, S, h => by
     by_cases hc : Closed es S
@@ -387,26 +393,155 @@ theorem dominatesB_iff (V : List Nat) (es : List (Nat × Nat)) (hV : ∀ e ∈ e
     intro e he
     obtain ⟨h1, _, h3⟩ := (mem_without a es e).1 he
     simp [hV e h1, h3]
+  have key := mem_reach_iff (V.filter (· != a)) (without a es) hV' entry b
   unfold dominatesB Dominates
   simp only [Bool.and_eq_true, Bool.or_eq_true, List.contains_iff_mem, beq_iff_eq, Bool.not_eq_true',
-    mem_reach_iff V es hV, mem_reach_iff _ _ hV']
+    mem_reach_iff V es hV]
   constructor
   · rintro ⟨hr, hd⟩
     refine ⟨hr, fun vs hw => ?_⟩
     rcases hd with rfl | hd
     · exact hw.start_mem
     · by_contra hna
-      have : ∃ vs, Walk (without a es) entry vs b := ⟨vs, hw.avoid hna⟩
-      simp [this] at hd
+      have h1 : b ∈ reach (V.filter (· != a)) (without a es) [entry] := key.2 ⟨vs, hw.avoid hna⟩
+      have h2 : (reach (V.filter (· != a)) (without a es) [entry]).contains b = true :=
+        List.contains_iff_mem.2 h1
+      rw [h2] at hd
+      cases hd
   · rintro ⟨hr, hall⟩
     refine ⟨hr, ?_⟩
     by_cases hae : a = entry
     · exact Or.inl hae
     · right
-      have : ¬ ∃ vs, Walk (without a es) entry vs b := by
-        rintro ⟨vs, hw⟩
+      cases hc : (reach (V.filter (· != a)) (without a es) [entry]).contains b with
+      | false => rfl
+      | true =>
+        exfalso
+        obtain ⟨vs, hw⟩ := key.1 (List.contains_iff_mem.1 hc)
         have hav := hw.avoided (fun e => hae e.symm)
         exact hav (hall vs (hw.mono (fun e he => ((mem_without a es e).1 he).1)))
-      simpa using this
+
+/-! ### the executable validator decides `Valid` -/
+
+theorem failing_nil {α : Type} (rule : String) (loc : α → List Nat) (items : List α) (ok : α → Bool) :
+    failing rule loc items ok = [] ↔ ∀ x ∈ items, ok x = true := by
+  simp [failing, List.filter_eq_nil_iff]
+
+theorem parent?_lt (d : VDoc) (n p : Nat) (h : d.parent? n = some p) : n ∈ d.nodeIds := by
+  unfold VDoc.parent? at h
+  split at h
+  · cases h
+  · cases hn : d.nodes[n]? with
+    | none => simp [hn] at h
+    | some v =>
+      have := (List.getElem?_eq_some_iff.1 hn).1
+      simpa [VDoc.nodeIds] using this
+
+theorem mem_children (d : VDoc) (p n : Nat) : n ∈ d.children p ↔ d.parent? n = some p := by
+  unfold VDoc.children
+  rw [List.mem_filter]
+  constructor
+  · rintro ⟨_, h⟩; simpa using h
+  · intro h; exact ⟨parent?_lt d n p h, by simp [h]⟩
+
+theorem sibEdges_mem (d : VDoc) (res : List REdge) (p : Nat) (e : Nat × Nat) (h : e ∈ d.sibEdges res p) :
+    e.1 ∈ d.children p ∧ e.2 ∈ d.children p := by
+  unfold VDoc.sibEdges at h
+  rw [List.mem_filterMap] at h
+  obtain ⟨re, _, hre⟩ := h
+  split at hre
+  · rename_i hc
+    cases hre
+    simp only [Bool.and_eq_true, beq_iff_eq] at hc
+    exact ⟨(mem_children d p _).2 hc.1, (mem_children d p _).2 hc.2⟩
+  · cases hre
+
+theorem R5_nodeB_iff (d : VDoc) (n : Nat) : R5_nodeB d d.redges n = true ↔ R5_node d n := by
+  unfold R5_nodeB R5_node
+  cases hop : d.op? n with
+  | none => simp
+  | some op =>
+    have hV := sibEdges_mem d d.redges n
+    simp only [Bool.or_eq_true, Bool.not_eq_true', Option.some.injEq, forall_eq']
+    rw [acyclicB_iff _ _ hV]
+    cases (flags op).requiresDag <;> simp
+
+theorem hasOrderEdge_iff (d : VDoc) (src anc : Nat) :
+    hasOrderEdge d d.redges src anc = true ↔ HasOrderEdge d src anc := by
+  unfold hasOrderEdge HasOrderEdge
+  simp only [List.any_eq_true, Bool.and_eq_true, beq_iff_eq]
+  constructor
+  · rintro ⟨e, he, ⟨h1, h2⟩, h3⟩; exact ⟨e, he, h1, h2, h3⟩
+  · rintro ⟨e, he, h1, h2, h3⟩; exact ⟨e, he, ⟨h1, h2⟩, h3⟩
+
+theorem R6c_nlB_iff (d : VDoc) (x : NonLocal) : R6c_nlB d d.redges x = true ↔ R6c_nl d x := by
+  unfold R6c_nlB R6c_nl
+  split <;> simp [hasOrderEdge_iff]
+
+theorem R7_nlB_iff (d : VDoc) (x : NonLocal) : R7_nlB d d.redges x = true ↔ R7_nl d x := by
+  unfold R7_nlB R7_nl
+  cases x.loc with
+  | ext _ _ => simp
+  | unrelated => simp
+  | dom g anc _ =>
+    dsimp only
+    cases hc : d.children g with
+    | nil => simp
+    | cons entry tl =>
+      dsimp only
+      exact dominatesB_iff _ _ (fun e he => hc ▸ (sibEdges_mem d d.redges g e he).2) entry x.fp anc
+
+theorem R9_nodeB_iff (d : VDoc) (n : Nat) : R9_nodeB d n = true ↔ R9_node d n := by
+  unfold R9_nodeB R9_node
+  split
+  · rename_i v hv
+    rw [Value.valid_iff]
+    constructor
+    · intro h w hw
+      rw [hv] at hw
+      cases hw
+      exact h
+    · intro h; exact h v hv
+  · rename_i hne
+    simp only [true_iff]
+    intro v hv
+    exact absurd hv (hne v)
+
+/-- **`violations d = [] ↔ Valid d`.** -/
+theorem violations_nil_iff (d : VDoc) : violations d = [] ↔ Valid d := by
+  unfold violations
+  simp only [List.append_eq_nil_iff, failing_nil]
+  constructor
+  · rintro ⟨⟨⟨⟨⟨⟨⟨⟨⟨⟨⟨⟨⟨⟨⟨⟨⟨⟨⟨⟨⟨⟨⟨⟨⟨⟨⟨⟨⟨⟨⟨h0, h0'⟩, h1a⟩, h1b⟩, h1c⟩, h1d⟩, h1e⟩, h2a⟩, h2b⟩, h2c⟩, h2d⟩, h2e⟩, h2f⟩, h2g⟩,
+      h2h⟩, h2i⟩, h2j⟩, h3a⟩, h3b⟩, h3c⟩, h3d⟩, h3e⟩, h3f⟩, h3g⟩, h4⟩, h5⟩, h6a⟩, h6b⟩, h6c⟩, h7⟩, h8⟩, h9⟩
+    refine ⟨⟨?_, h0'⟩, h1a, h1b, h1c, h1d, h1e, h2a, h2b, h2c, h2d, h2e, h2f, h2g, h2h, h2i, h2j,
+      h3a, h3b, h3c, h3d, h3e, h3f, h3g, h4, ?_, h6a, h6b, ?_, ?_, h8, ?_⟩
+    · intro hn; rw [hn] at h0; simp at h0
+    · intro n hn; exact (R5_nodeB_iff d n).1 (h5 n hn)
+    · intro x hx; exact (R6c_nlB_iff d x).1 (h6c x hx)
+    · intro x hx; exact (R7_nlB_iff d x).1 (h7 x hx)
+    · intro n hn; exact (R9_nodeB_iff d n).1 (h9 n hn)
+  · rintro ⟨⟨h0, h0'⟩, h1a, h1b, h1c, h1d, h1e, h2a, h2b, h2c, h2d, h2e, h2f, h2g, h2h, h2i, h2j,
+      h3a, h3b, h3c, h3d, h3e, h3f, h3g, h4, h5, h6a, h6b, h6c, h7, h8, h9⟩
+    refine ⟨⟨⟨⟨⟨⟨⟨⟨⟨⟨⟨⟨⟨⟨⟨⟨⟨⟨⟨⟨⟨⟨⟨⟨⟨⟨⟨⟨⟨⟨⟨?_, h0'⟩, h1a⟩, h1b⟩, h1c⟩, h1d⟩, h1e⟩, h2a⟩, h2b⟩, h2c⟩, h2d⟩, h2e⟩, h2f⟩, h2g⟩,
+      h2h⟩, h2i⟩, h2j⟩, h3a⟩, h3b⟩, h3c⟩, h3d⟩, h3e⟩, h3f⟩, h3g⟩, h4⟩, ?_⟩, h6a⟩, h6b⟩, ?_⟩, ?_⟩, h8⟩, ?_⟩
+    · cases hn : d.nodes with
+      | nil => exact absurd hn h0
+      | cons _ _ => simp
+    · intro n hn; exact (R5_nodeB_iff d n).2 (h5 n hn)
+    · intro x hx; exact (R6c_nlB_iff d x).2 (h6c x hx)
+    · intro x hx; exact (R7_nlB_iff d x).2 (h7 x hx)
+    · intro n hn; exact (R9_nodeB_iff d n).2 (h9 n hn)
+
+/-- **The executable validator accepts exactly the valid documents.** -/
+theorem validate_iff (d : VDoc) : validate d = .ok () ↔ Valid d := by
+  rw [← violations_nil_iff]
+  unfold validate
+  split
+  · rename_i h; simp [h]
+  · rename_i vs h
+    constructor
+    · intro h'; cases h'
+    · intro h'; exact absurd h' (by intro e; exact h e)
 
 end HugrVerif.Validate
